@@ -117,6 +117,20 @@ def parse_progs(strs):
             progs.append(("parseInt", WRAP % ("parseInt(" + S + (", " + r if r else "") + ")")))
         progs.append(("Number.parseInt", WRAP % ("Number.parseInt(" + S + ", 16)")))
         progs.append(("isNaN/isFinite", WRAP % ("[isNaN(" + S + "), isFinite(" + S + "), Number.isNaN(" + S + "), Number.isInteger(" + S + ")]")))
+    # long digit runs in every radix whose value still fits 53 bits exactly (any truncation of the digit run shows), with leading zeros
+    import math
+    rng = random.Random(len(strs))
+    digs = "0123456789abcdefghijklmnopqrstuvwxyz"
+    for radix in range(2, 37):
+        maxlen = int(53 / math.log2(radix))
+        for L in sorted({maxlen, maxlen - 1, max(1, maxlen // 2), 41, 45}):
+            if L > maxlen:
+                continue
+            for lead in ("", "000", "0" * 60):
+                for _ in range(2):
+                    body = "".join(rng.choice(digs[:radix]) for _ in range(L))
+                    body = (digs[1] if body[0] == "0" else body[0]) + body[1:]
+                    progs.append(("parseInt", WRAP % ("parseInt(%s, %d)" % (json.dumps(lead + body), radix))))
     return progs
 
 
